@@ -406,6 +406,11 @@ def tie_b_gnss(res, workdir):
     return tie_b_generic(res, workdir, 'gnss', 'emit_gnss_v', 'GnssKernels.v', 'BridgeGnss.v', 'CFG-GNSS enable/disable helpers')
 
 
+def tie_b_lever(res, workdir):
+    """Tie B for the lever-arm query (C17): UbxCfgEsfla.lever_arm."""
+    return tie_b_generic(res, workdir, 'lever', 'emit_lever_v', 'LeverKernels.v', 'BridgeLever.v', 'CFG-ESFLA lever-arm query')
+
+
 def tie_b_gpsd(res, workdir):
     """Tie B for the gpsd handshake: _parse_gpsd_msg / _parse_version / _parse_devices of ubxlib/server.py."""
     return tie_b_generic(res, workdir, 'gpsd', 'emit_gpsd_v', 'GpsdKernels.v', 'BridgeGpsd.v', 'gpsd handshake parsing')
